@@ -126,6 +126,8 @@ def run(ck):
     for k in range(NP):
         kind = 'dna' if rng.chance(1, 2) else 'protein'
         alpha = gen.DNA if kind == 'dna' else gen.PROT
+        if rng.chance(1, 4):     # ambiguity codes take part in the scores like any other residue (N; B, Z, X)
+            alpha = alpha + ('NN' if kind == 'dna' else 'BZXBZX')
         n = rng.choice([8, 12, 20, 30, 45]) if quick else rng.choice([8, 20, 45, 80, 140])
         a, b, path = nc.plant(rng, alpha, n, sub=rng.choice([0, 5, 15]), indel=rng.choice([0, 4, 8]))
         ty = rng.choice(TYPES[kind])
